@@ -46,6 +46,16 @@ CHECKS['C01'] = dict(
    text='Generated-input search. Lists of 1-4 scripts: structured witnesses (RETURN at nesting depth 0-3 in every construct, DEFs incl. handles the lock calls, cache writes incl. the keys returned / E / P, junk, call-budget burning) with structured locks, real builder witness / lock pairs with an adversarial script before or between them, call-budget families around the limit, mutated byte soup; initial caches and limit triples drawn as well. Every case is judged by three oracles: a FALSE VERIFY sentinel appended / prepended to the last (and a middle) script must make the verdict False; the verdict must equal that of a hand composition of the scripts on one shared stack and cache through the public single-script API, in both directions; run_auth_scripts / run_auth_script never raise and Script objects behave like bytes.',
    note='The composition oracle reuses the implementation of single-script execution: only the sequencing across scripts (carry-over of stack, cache, definitions, cumulative call count, control residue) is independent. Sentinel locks contain RETURN only inside DEF bodies or pushed-and-evaluated scripts. Vacuity guard: >= 10 % of cases authorise.',
    design='3/C01')
+CHECKS['C02'] = dict(
+   technique='complete flag x allowed matrix + all presence subsets + Hypothesis corruption cases; oracle = reference message builder and pure-Python RFC 8032 (byte-exact for the deterministic signer)',
+   text='Generated-input search with an independent cryptographic reference. Complete: the 256 x 256 flag x allowed-flags matrix for CHECK_SIG and CHECK_SIG_VERIFY (honest signature and a signature over a neighbouring flag\'s message in every cell, 64- and 65-byte forms for flag 0), and all 256 presence subsets x ten flags for GET_MESSAGE / SIGN / sign-then-check. Random: seeds, subsets, field contents incl. empty, flag / allowed pairs, the six instructions, malformed key / signature lengths and single-bit corruptions of key, signature, covered field, excluded field and flag byte. SIGN and SIGN_STACK must equal the RFC 8032 signature byte for byte; checks are true exactly for valid permitted signatures, errors for non-permitted flags and wrong lengths, unchanged by excluded / absent fields.',
+   note='vt/ed25519_ref.py is the oracle for the sampled part; matrix signatures come from libsodium and are valid by construction. After a key or signature bit flip only "not true" is required (libsodium and RFC 8032 both reject, possibly for different reasons).',
+   design='3/C02')
+CHECKS['C03'] = dict(
+   technique='Hypothesis multisets of signature items x key / signature orders (all orders for n <= 3) against a specification predicate on the generator\'s ground truth; bare instruction and builder path',
+   text='Generated-input search with a specification-predicate oracle. n <= 5 distinct keys, m <= n (and m = n + 1), signature multisets mixing listed signers, outsiders, exact duplicates, same-signer flag variants, non-permitted flags, bit flips and wrong lengths. The verdict must be true exactly when all m items are well-formed, permitted and valid under pairwise different listed keys, never true otherwise (an error only when a malformed or non-permitted item exists), and identical for every order of keys and of signatures (all n!*m! orders enumerated for n, m <= 3, 24 drawn otherwise). The same multisets go through make_multisig_lock + concatenated make_single_sig_witness and run_auth_scripts.',
+   note='Quorum 0 is vacuously true (recorded as a class). Keys are distinct, so greedy matching is exact. A tenth of the positive verdicts is re-verified with the RFC 8032 reference.',
+   design='3/C03')
 NOT_YET = {}
 for i in range(1, 21):
     pid = 'C%02d' % i
